@@ -1367,3 +1367,75 @@ func c12fieldInterface(c *an.Ctx) {
 	}
 	c.Expect("C12.panicval", "Interface() calls on values that may be unexported struct fields", n, 1)
 }
+
+// c18contentAgrees (C18.once content-inherited): Runtime.YieldBlock(name, ctx) renders the block like
+// `{{yield name() ctx}}` — a yield without a content part.  On the paths of executeYieldBlock on which no content was
+// given (its content parameter is nil), Runtime.content is therefore left as YieldBlock leaves it: the only stores are
+// of the value saved from it on entry (the restore at the end), or stores YieldBlock makes as well.  A change of what a
+// content-less yield inherits made on one side only makes the API and the syntax render `{{yield content}}` differently.
+func c18contentAgrees(c *an.Ctx) {
+	p := c.P
+	f := c.Fn("C18.once", "(*Runtime).executeYieldBlock")
+	yb := c.Fn("C18.once", "(*Runtime).YieldBlock")
+	if f == nil || yb == nil {
+		return
+	}
+	info := f.Info()
+	var contentParam *types.Var
+	for i := 0; i < f.Sig.Params().Len(); i++ {
+		if an.TypeName(f.Sig.Params().At(i).Type()) == "*jet.ListNode" {
+			contentParam = f.Sig.Params().At(i)
+		}
+	}
+	if contentParam == nil {
+		c.Anchor("C18.once", "content list parameter of executeYieldBlock")
+		return
+	}
+	// what YieldBlock itself stores into Runtime.content
+	apiStores := map[string]bool{}
+	an.InspectOwn(yb, func(n ast.Node) bool {
+		an.Assigns(n, func(lhs, rhs ast.Expr, _ token.Token) {
+			if p.FieldKey(yb.Info(), lhs) == "Runtime.content" && rhs != nil {
+				apiStores[an.Str(an.Unparen(rhs))] = true
+			}
+		})
+		return true
+	})
+	ids := identsOf(f, contentParam)
+	bad := token.NoPos
+	what := ""
+	x := p.NewExplorer(f, an.Hooks{PreAssign: func(x *an.Explorer, lhs, rhs ast.Expr, stmt ast.Node, st *an.State) {
+		if id, ok := an.Unparen(lhs).(*ast.Ident); ok && rhs != nil && p.FieldKey(info, rhs) == "Runtime.content" {
+			if k, ok := x.Key(id); ok {
+				st.Set("entry:"+k, "1")
+			}
+			return
+		}
+		if p.FieldKey(info, lhs) != "Runtime.content" || rhs == nil || len(ids) == 0 {
+			return
+		}
+		if t, known := x.Truth(&ast.BinaryExpr{X: ids[0], Op: token.EQL, Y: ast.NewIdent("nil")}, st); !known || !t {
+			return // content was given (or may have been): the closure is installed
+		}
+		if k, ok := x.Key(rhs); ok && st.Get("entry:"+k) != "" {
+			return // the restore of what was there on entry
+		}
+		if apiStores[an.Str(an.Unparen(rhs))] {
+			return
+		}
+		if !bad.IsValid() {
+			bad, what = lhs.Pos(), an.Str(rhs)
+		}
+	}})
+	x.Run(nil)
+	c.States += x.Visited
+	key := "(*Runtime).executeYieldBlock/content-inherited"
+	switch {
+	case x.Undecided != "":
+		c.Undecided("C18.once", key, f.Pos(), "%s", x.Undecided)
+	case bad.IsValid():
+		c.Bad("C18.once", key, bad, nil, "executeYieldBlock stores %s into Runtime.content on a path where the yield has no content part, and Runtime.YieldBlock does not: `{{yield name()}}` and YieldBlock(name, …) no longer render `{{yield content}}` inside the block alike", what)
+	default:
+		c.OK("C18.once", key, f.Pos(), "a yield without content leaves Runtime.content as Runtime.YieldBlock leaves it")
+	}
+}
